@@ -38,7 +38,7 @@ pub fn profiles(prop: &str) -> Vec<(Box<dyn Profile>, u64)> {
         "C10" => vec![(Box::new(profile::remotes::Remotes), 1)],
         "C11" => vec![(Box::new(profile::f5::CustomChain { prop: "C11" }), 1)],
         "C20" => vec![(Box::new(profile::remotes::StoredHandles), 1)],
-        "C12" => vec![(Box::new(profile::twin::ProxyTwin), 1)],
+        "C12" => vec![(Box::new(profile::twin::ProxyTwin { custom_chain: false }), 3), (Box::new(profile::twin::ProxyTwin { custom_chain: true }), 1)],
         "C06" => vec![(Box::new(profile::f2::EntryPointTwin), 1)],
         "C07" => vec![(Box::new(profile::f3::F3 { prop: "C07" }), 1)],
         "C08" => vec![(Box::new(profile::f3::F3 { prop: "C08" }), 1)],
